@@ -24,7 +24,7 @@ fn exhaustive_n(tier: Tier) -> u32 {
 
 fn n_random(tier: Tier) -> u64 {
     match tier {
-        Tier::Quick => 60_000,
+        Tier::Quick => 500_000,
         Tier::Thorough => 1_500_000,
     }
 }
@@ -36,6 +36,9 @@ struct Case {
     /// adjacency: edges[i] = list of import statements of module i, in source order:
     /// (target module or None for a missing file, spelling variant, qualifier)
     uses: Vec<Vec<(Option<usize>, String, Option<String>)>>,
+    /// Where each import statement stands: 0 before the declaration, 1 after it, 2 at the end of
+    /// the module (`use` is a statement like any other: it may follow declarations and resources).
+    places: Vec<Vec<u8>>,
     files: Vec<String>,
 }
 
@@ -108,7 +111,8 @@ fn build_case(n: usize, adj: &dyn Fn(usize, usize) -> bool, t: &mut Tape) -> Cas
         }
         uses.push(us);
     }
-    Case { n, uses, files }
+    let places = uses.iter().map(|us| us.iter().map(|_| if t.chance(1, 3) { 1 + t.choose(2) as u8 } else { 0 }).collect()).collect();
+    Case { n, uses, places, files }
 }
 
 fn sources_of(c: &Case) -> Sources {
@@ -117,10 +121,15 @@ fn sources_of(c: &Case) -> Sources {
         let mut text = String::new();
         let mut props = vec![format!("'m{i} num")];
         let mut mentions: Vec<(usize, String, String)> = Vec::new();
-        for (target, spelling, q) in c.uses[i].iter() {
-            match q {
-                Some(q) => text.push_str(&format!("use \"{spelling}\" as {q} ;\n")),
-                None => text.push_str(&format!("use \"{spelling}\" ;\n")),
+        let mut later = [String::new(), String::new()];
+        for (ui, (target, spelling, q)) in c.uses[i].iter().enumerate() {
+            let stmt = match q {
+                Some(q) => format!("use \"{spelling}\" as {q} ;\n"),
+                None => format!("use \"{spelling}\" ;\n"),
+            };
+            match c.places[i][ui] {
+                0 => text.push_str(&stmt),
+                p => later[p as usize - 1].push_str(&stmt),
             }
             if let Some(j) = target {
                 // Mention the imported module's declaration so that compile order matters.
@@ -141,9 +150,11 @@ fn sources_of(c: &Case) -> Sources {
             props.push(format!("'d{j}{q} {e}"));
         }
         text.push_str(&format!("let v{i} = {{ {} }} ;\n", props.join(" , ")));
+        text.push_str(&later[0]);
         if i == 0 {
             text.push_str("res / on get -> v0 ;\n");
         }
+        text.push_str(&later[1]);
         files.insert(c.files[i].clone(), text);
     }
     Sources { main: "main.oal".to_owned(), files }
